@@ -25,3 +25,77 @@ pub fn fmt_format(_args: core::fmt::Arguments<'_>) -> String {
 pub fn utc_now() -> chrono::DateTime<chrono::Utc> {
     chrono::DateTime::<chrono::Utc>::from_timestamp(1_600_000_000, 0).unwrap()
 }
+
+/// Plain byte-loop UTF-8 validity (RFC 3629 / Unicode Table 3-7), no word-at-a-time tricks.
+pub fn utf8_valid(b: &[u8]) -> bool {
+    let n = b.len();
+    let mut i = 0;
+    while i < n {
+        let c = b[i];
+        if c < 0x80 {
+            i += 1;
+        } else if c >= 0xC2 && c <= 0xDF {
+            if i + 1 >= n || b[i + 1] & 0xC0 != 0x80 {
+                return false;
+            }
+            i += 2;
+        } else if c >= 0xE0 && c <= 0xEF {
+            if i + 2 >= n {
+                return false;
+            }
+            let (c1, c2) = (b[i + 1], b[i + 2]);
+            let lo = if c == 0xE0 { 0xA0 } else { 0x80 };
+            let hi = if c == 0xED { 0x9F } else { 0xBF };
+            if c1 < lo || c1 > hi || c2 & 0xC0 != 0x80 {
+                return false;
+            }
+            i += 3;
+        } else if c >= 0xF0 && c <= 0xF4 {
+            if i + 3 >= n {
+                return false;
+            }
+            let (c1, c2, c3) = (b[i + 1], b[i + 2], b[i + 3]);
+            let lo = if c == 0xF0 { 0x90 } else { 0x80 };
+            let hi = if c == 0xF4 { 0x8F } else { 0xBF };
+            if c1 < lo || c1 > hi || c2 & 0xC0 != 0x80 || c3 & 0xC0 != 0x80 {
+                return false;
+            }
+            i += 4;
+        } else {
+            return false;
+        }
+    }
+    true
+}
+
+#[allow(dead_code)]
+struct FromUtf8ErrorTwin {
+    bytes: Vec<u8>,
+    valid_up_to: usize,
+    error_len: Option<u8>,
+}
+
+/// Stand-in for `String::from_utf8`: std's validator chooses word-at-a-time paths from pointer alignment, which CBMC
+/// cannot resolve (19 GB, no verdict). Same result for every input (lemma `lemma_utf8_valid` for lengths <= 4);
+/// the error value is only ever mapped to a status code.
+#[cfg(kani)]
+pub fn string_from_utf8(vec: Vec<u8>) -> Result<String, std::string::FromUtf8Error> {
+    if utf8_valid(&vec) {
+        Ok(unsafe { String::from_utf8_unchecked(vec) })
+    } else {
+        let twin = FromUtf8ErrorTwin { bytes: vec, valid_up_to: 0, error_len: Some(1) };
+        Err(unsafe { std::mem::transmute::<FromUtf8ErrorTwin, std::string::FromUtf8Error>(twin) })
+    }
+}
+
+#[cfg(kani)]
+#[kani::proof]
+#[kani::unwind(6)]
+pub fn lemma_utf8_valid() {
+    let b: [u8; 4] = kani::any();
+    let n: usize = kani::any();
+    kani::assume(n <= 4);
+    let s = &b[..n];
+    assert!(utf8_valid(s) == core::str::from_utf8(s).is_ok(), "utf8_valid agrees with core::str::from_utf8");
+    kani::cover!(n == 4 && utf8_valid(s) && b[0] >= 0xF0, "a 4-byte sequence");
+}
